@@ -370,6 +370,11 @@ func genUpkeepID(r *Rng, logType bool) ocr2keepers.UpkeepIdentifier {
 	return ocr2keepers.UpkeepIdentifier(simutil.NewUpkeepID(r.Bytes(8), t))
 }
 
+// genUpkeepIDOther: an upkeep id whose type byte is neither "condition" nor "log" (the type getter returns the raw byte)
+func genUpkeepIDOther(r *Rng) ocr2keepers.UpkeepIdentifier {
+	return ocr2keepers.UpkeepIdentifier(simutil.NewUpkeepID(r.Bytes(8), uint8(r.Range(2, 9))))
+}
+
 func genHash(r *Rng) (h [32]byte) { copy(h[:], r.Bytes(32)); return }
 
 // genResult builds a valid eligible check result for the given upkeep.
